@@ -17,6 +17,8 @@ func VP_C05_enc32() {
 	for i := 0; i < m; i++ {
 		vp.Assert(buf[i] == ref[i], "byte==reference")
 	}
+	vp.Observe("n", n)
+	vp.Observe("bytes", buf[:n])
 	vp.Cover("end")
 }
 
